@@ -178,7 +178,7 @@ def spec_consts(var, watch0):
 def check(ctx):
     m1 = Mode1(ctx, "MC_Ann")
     m1.holds("window [0,1], 2 repetitions", "C13_quick.cfg", None if ctx.quick else {"MaxEv = 3": "MaxEv = 5"}, timeout=3000)
-    m1.holds("window [1,1], 1 repetition, base 2", "C13_quick.cfg", {"C13_A": "C13_B"})
+    m1.holds("window [1,1], 1 repetition, base 2", "C13_quick.cfg", dict({"C13_A": "C13_B"}, **({} if ctx.quick else {"MaxEv = 3": "MaxEv = 5"})), timeout=3000)
     m1.caught("SwFindAll", "C13_quick.cfg")
     traces = traces_for(ctx.seed, ctx.pick(400, 6000), ctx.pick(8, 12)) + structured()
     bad, ms = judge(ctx, "Mon_C13", traces, "find-task histories", payload)
